@@ -168,3 +168,60 @@ pub fn subs_for(property: &str) -> Vec<Sub> {
     }
     v
 }
+
+/// `ebv gen-seeds <dir>`: writes small valid inputs for the byte-level targets (dev-time; the result is committed
+/// under fuzz/seeds/). Deterministic.
+pub fn gen_seeds(dir: &std::path::Path) -> i32 {
+    use proptest::strategy::ValueTree;
+    use proptest::test_runner::{Config, RngSeed, TestRunner};
+    let mut runner = TestRunner::new(Config {
+        rng_seed: RngSeed::Fixed(7),
+        failure_persistence: None,
+        ..Config::default()
+    });
+    let mut write = |target: &str, i: usize, bytes: &[u8]| {
+        let d = dir.join(target);
+        let _ = std::fs::create_dir_all(&d);
+        let _ = std::fs::write(d.join(format!("seed-{i:02}")), bytes);
+    };
+    // programs from the repository's own tests, as bytecode
+    let known: Vec<Vec<MOp>> = vec![
+        vec![PUSH(6), PUSH(7), MUL, PUSH(42), EQ],
+        vec![PUSH(42), PUSH(2), PUSH(1), PUSH(0), PUSH(3), DUPF],
+        vec![PUSH(3), PUSH(1), REP, REPC, REPE],
+        vec![PUSH(2), COM, PUSH(1), ALOC, STO, COME],
+        vec![PUSH(1), PUSH(1), PUSH(1), PUSH(0), PUSH(2), ALOC, KRNG],
+        vec![PUSH(2), PUSH(1), JMPIF, HLT, PUSH(1)],
+    ];
+    let mut n = 0;
+    for p in &known {
+        let b = crate::model::asm::encode(p);
+        write("vm_bytes", n, &b);
+        write("asm_codec", n, &b);
+        n += 1;
+    }
+    let strat = crate::gen::programs::structured(crate::gen::programs::StructCfg::default());
+    for _ in 0..14 {
+        if let Ok(t) = strat.new_tree(&mut runner) {
+            let b = crate::model::asm::encode(&t.current());
+            if b.len() <= 160 {
+                write("vm_bytes", n, &b);
+                write("asm_codec", n, &b);
+                n += 1;
+            }
+        }
+    }
+    // decoders: selector byte + canonical mutation list as table indices / a valid predicate encoding
+    let pred = crate::model::codec::encode_predicate(&[(0, [1; 32]), (u16::MAX, [2; 32])], &[1]);
+    let mut b = vec![1u8];
+    b.extend(&pred);
+    write("decoders", 0, &b);
+    // words via the 0xfe escape: [2, (1,[5],1,[6]), (0,[],0,[])]
+    let words = [2u8, 1, 5, 1, 6, 0, 0];
+    let mut b = vec![0u8];
+    for w in words {
+        b.extend([0xfe, w]);
+    }
+    write("decoders", 1, &b);
+    0
+}
